@@ -182,7 +182,7 @@ def run(ctx):
     ctx.prove()
     rng = ctx.rng
     reqs, expect = [], []
-    for k in range(-1, ctx.budget(24, 400)):
+    for k in range(-1, ctx.budget(16, 400)):
         multi = (k % 3 == 2)
         if k == -1:
             # corpus case (recorded finding): a level-0 controller is satisfied, then a level-1 controller of the same
